@@ -197,6 +197,10 @@ pub struct Faults {
     pub write_zero_at: Option<usize>,
     pub flush_err: Option<IoKind>,
     pub handler_err: bool,
+    /// the application handler panics instead of returning: Some(false) = with a literal
+    /// message (&str payload), Some(true) = with a formatted one (String payload)
+    #[serde(default)]
+    pub handler_panic: Option<bool>,
 }
 
 impl Default for Faults {
@@ -211,6 +215,7 @@ impl Default for Faults {
             write_zero_at: None,
             flush_err: None,
             handler_err: false,
+            handler_panic: None,
         }
     }
 }
